@@ -269,3 +269,12 @@ Example rfc3501_example :
   utf7_encode mb64_encode [126; 112; 101; 116; 101; 114; 47; 109; 97; 105; 108; 47; 21488; 21271; 47; 26085; 26412; 35486]
   = [126; 112; 101; 116; 101; 114; 47; 109; 97; 105; 108; 47; 38; 85; 44; 66; 84; 70; 119; 45; 47; 38; 90; 101; 86; 110; 76; 73; 113; 101; 45].
 Proof. vm_compute. reflexivity. Qed.
+
+(** runs longer than one MIME base64 line (57 input bytes): 40 code units, BMP and astral *)
+Example long_run_roundtrip :
+  let run := repeat 233 29 ++ [128512; 9; 65535] ++ repeat 26085 7 in
+  length (utf16 run) = 40%nat
+  /\ mb64_decode (mb64_encode run) = Some run
+  /\ forallb is_mb64 (mb64_encode run) = true
+  /\ length (mb64_encode run) = 107%nat.
+Proof. vm_compute. repeat split; reflexivity. Qed.
